@@ -1,9 +1,14 @@
 import CodeLimit.Model.Scopes
+import CodeLimit.Spec.Nocl
 /-!
 # Lemmas for C17 (the `nocl` suppression marker)
 
 * `isNoclText_iff` - an independent characterisation of the marker text;
 * `mem_filterNocl_iff`, `buildScopes_eq` - which scopes survive `_filter_nocl_scopes`.
+
+The specification vocabulary (`Marked`, `PosSorted`, `StartSorted`, `Independent`,
+`Measurement.encloses`) is in `CodeLimit/Spec/Nocl.lean`; `rawScopes` and `arrange` below are
+decompositions of the model function `buildScopes`, not specification.
 
 Continued in `NoclFold.lean` (removing an independent scope does not change the nesting
 structure of the other scopes; measurements are computed scope by scope), `NoclSorted.lean`
@@ -224,12 +229,8 @@ theorem isNoclText_iff (v : Str) :
 
 /-! ## T2: exactly the marked functions are dropped -/
 
-/-- line `ℓ` carries a suppression marker: some comment token on that line has a marker text -/
-def Marked (all : List Tok) (ℓ : Nat) : Prop :=
-  ∃ t ∈ all, t.isComment = true ∧ isNoclText t.val = true ∧ t.line = ℓ
-
-instance (all : List Tok) (ℓ : Nat) : Decidable (Marked all ℓ) := by
-  unfold Marked; infer_instance
+/-! `Marked all ℓ` (line `ℓ` carries a suppression marker) is specification vocabulary:
+`CodeLimit/Spec/Nocl.lean`. -/
 
 theorem contains_noclLines_iff (all : List Tok) (ℓ : Nat) :
     ((noclTokens all).map (·.line)).contains ℓ = true ↔ Marked all ℓ := by
